@@ -87,6 +87,10 @@ def _progs(tier: str) -> List[Dict[str, Any]]:
                   [["res", [["op", "custom_gelu"], ["op", "linear:F_nobias"]], "skip_first"], ["op", "custom_gelu"]]):
         add(items, replace=True)
         add(items, replace=False)
+    # ... also when the replaced function itself has a built-in unit-scaled counterpart
+    for items in ([["op", "gelu:F"]], [["op", "linear:nn"], ["op", "gelu:F"], ["op", "gelu:nn"]],
+                  [["res", [["op", "gelu:F_tanh"], ["op", "linear:F_nobias"]], "skip_first"], ["op", "gelu:F"]]):
+        add(items, replace="builtin")
     if tier == "thorough":
         for n, items in enumerate(chains(SMALL, 3)):
             if len(items) == 3:
@@ -101,6 +105,13 @@ def _progs(tier: str) -> List[Dict[str, Any]]:
 
 def cases(tier: str, seed: int) -> List[Dict[str, Any]]:
     return [dict(c, kind="prog", seed=seed) for c in _progs(tier)]
+
+
+def _my_act(x: Any, approximate: str = "none") -> Any:
+    """user-supplied replacement for F.gelu (distinguishable from U.gelu)"""
+    import torch
+
+    return torch.tanh(x) * 1.25
 
 
 def run_case(case: Dict[str, Any]) -> Dict[str, Any]:
@@ -125,8 +136,15 @@ def run_case(case: Dict[str, Any]) -> Dict[str, Any]:
     inp = inputs(prog, case["seed"])
     before = {k: v.clone() for k, v in m.state_dict().items()}
     replace = {}
-    if prog.get("replace"):
+    import torch.nn.functional as F
+
+    sem_replace: Dict[str, Any] = {}
+    if prog.get("replace") == "builtin":
+        replace = {F.gelu: _my_act}
+        sem_replace = {"F.gelu": _my_act}
+    elif prog.get("replace"):
         replace = {m.custom_gelu_fn[0]: U.silu}
+        sem_replace = {"custom_gelu": U.silu}
     captured: List[Any] = []
 
     def run(model: Any, call: Any) -> Any:
@@ -164,7 +182,7 @@ def run_case(case: Dict[str, Any]) -> Dict[str, Any]:
     # ---- reference: the recipe applied by hand on the returned module's parameters
     ref_m, _ = build(prog, case["seed"])
     ref_m.load_state_dict(u.state_dict())
-    sem = UnitScaleSemantics({"custom_gelu": U.silu} if replace else {})
+    sem = UnitScaleSemantics(sem_replace)
     y_ref, g_ref = run(ref_m, lambda *a: Interp(prog, ref_m, sem).run(*a))
 
     def close(a: Any, b: Any) -> bool:
